@@ -42,6 +42,13 @@ impl Out {
             writeln!(self.w, "X {} FAIL {} #c{}", self.prop, msg(), self.case).unwrap();
         }
     }
+    /// like `x`, for a violation that belongs to a recorded known finding (KNOWN_FINDINGS.txt, `key=`)
+    pub fn x_known<F: FnOnce() -> String>(&mut self, cond: bool, key: &str, msg: F) {
+        if !self.active { return; }
+        if cond { self.x_ok += 1; } else {
+            writeln!(self.w, "X {} KNOWN {} {} #c{}", self.prop, key, msg(), self.case).unwrap();
+        }
+    }
     pub fn comment(&mut self, s: &str) { if self.active { writeln!(self.w, "# {}", s).unwrap(); } }
     pub fn finish(mut self) {
         writeln!(self.w, "X {} TALLY ok={} fail={} cases={}", self.prop, self.x_ok, self.x_fail, self.case).unwrap();
